@@ -18,5 +18,15 @@ fixed("C01","C01/unpack-error/AMTRELAY/discovery-bit","3c7ed4d","AMTRELAY with t
 fixed("C01","C01/repack-mismatch/URI/backslash-in-octet-field","b110fba","URI target / CAA value containing the octet 0x5C lost it on Unpack->Pack and in String() (unpack stored it raw, pack treats backslash as an escape)")
 fixed("C01","C01/pack-error/URI/octet-field-over-1025","714ee18","URI target / CAA value longer than 1025 characters failed to pack with ErrBuf (length guard copied from the character-string packer)")
 
+# ---- C03
+fixed("C03","C03/IsDomainName-true-model-false/wire-length-256","f4d6b59","names of 256 and 257 wire octets were accepted by IsDomainName and packed by PackDomainName although UnpackDomainName rejects them (255-octet limit)")
+fixed("C03","C03/packer-accepts-non-fqdn/random-text","bb43edc","IsFqdn counted the backslashes before the final dot in runes: a multi-byte UTF-8 sequence in front of them flipped the parity, so names ending in an escaped dot were packed and some fully-qualified ones refused")
+# ---- C16
+fixed("C16","C16/copy-alias/OPT/*dns.EDNS0_SUBNET.Address","e6225bc","Copy/Msg.Copy shared the Address slice of EDNS0_SUBNET and the AlgCode slices of EDNS0_DAU/DHU/N3U with the original")
+# ---- C20
+known("C20","C20/not-reflexive/OPT","OPT.isDuplicate is hard-wired to false: an OPT record is never a duplicate of itself or of its copy")
+known("C20","C20/not-reflexive/XPRIV","PrivateRR.isDuplicate is hard-wired to false: a user-registered private record is never a duplicate of itself or of its copy")
+fixed("C20","C20/is-true-want-false/AMTRELAY/field","5591374","AMTRELAY records with the discovery bit set and different relays were reported as duplicates (isDuplicate switched on the unmasked type octet)")
+
 json.dump({"comment":"Committed list of genuine defects of the pinned miekg/dns tree. status=known suppresses exactly the listed key (printed as KNOWN-FINDING); status=fixed suppresses nothing. Never written at run time; regenerate with tools/mkfindings.py.","findings":F},open('/verif/known_findings.json','w'),indent=1)
 print(len(F),"findings")
